@@ -12,91 +12,99 @@ inline void gxyz(Rng& r, real a, real& X, real& Y, real& Z) {
 }
 
 inline void register_c() {
-  add("sh.value", "SphericalHarmonic", 1, true, [](const Shared* S, Rng& r, Res& o, int) {
-    real X, Y, Z, gx, gy, gz; gxyz(r, S->P.a, X, Y, Z); o.d(S->sh(X, Y, Z)); o.d(S->sh(X, Y, Z, gx, gy, gz)); o.d(gx); o.d(gy); o.d(gz); });
-  add("sh.circle", "SphericalHarmonic", 1, true, [](const Shared* S, Rng& r, Res& o, int) {
-    real a = S->P.a, gx = -1, gy = -2, gz = -3; CircularEngine c = S->sh.Circle(a * r.uniform(0, 2), a * r.uniform(-2, 2), r.coin());
+  add("sh.value", "SphericalHarmonic", 1, true, [](const Shared* S, Rng& r, Res& o, int pv) {
+    real X, Y, Z, gx, gy, gz; gxyz(r, S->P.a, X, Y, Z); o.d(VAR(shv)(X, Y, Z)); o.d(VAR(shv)(X, Y, Z, gx, gy, gz)); o.d(gx); o.d(gy); o.d(gz); });
+  add("sh.circle", "SphericalHarmonic", 1, true, [](const Shared* S, Rng& r, Res& o, int pv) {
+    real a = S->P.a, gx = -1, gy = -2, gz = -3; CircularEngine c = VAR(shv).Circle(a * r.uniform(0, 2), a * r.uniform(-2, 2), r.coin());
     real lon = glon(r); o.d(c(lon)); try { o.d(c(lon, gx, gy, gz)); o.d(gx); o.d(gy); o.d(gz); } catch (const GeographicErr&) { o.i(-1); }
-    o.i(S->sh.Coefficients().nmx()); o.i(S->sh.Coefficients().mmx()); });
-  add("sh1.value", "SphericalHarmonic1", 1, true, [](const Shared* S, Rng& r, Res& o, int) {
-    real X, Y, Z, gx, gy, gz, t = r.uniform(-2, 2); gxyz(r, S->P.a, X, Y, Z); o.d(S->sh1(t, X, Y, Z)); o.d(S->sh1(t, X, Y, Z, gx, gy, gz)); o.d(gx); o.d(gy); o.d(gz); });
-  add("sh1.circle", "SphericalHarmonic1", 1, true, [](const Shared* S, Rng& r, Res& o, int) {
-    real a = S->P.a, gx, gy, gz; CircularEngine c = S->sh1.Circle(r.uniform(-2, 2), a * r.uniform(0, 2), a * r.uniform(-2, 2), true);
+    o.i(VAR(shv).Coefficients().nmx()); o.i(VAR(shv).Coefficients().mmx()); });
+  add("sh1.value", "SphericalHarmonic1", 1, true, [](const Shared* S, Rng& r, Res& o, int pv) {
+    real X, Y, Z, gx, gy, gz, t = r.uniform(-2, 2); gxyz(r, S->P.a, X, Y, Z); o.d(VAR(sh1v)(t, X, Y, Z)); o.d(VAR(sh1v)(t, X, Y, Z, gx, gy, gz)); o.d(gx); o.d(gy); o.d(gz); });
+  add("sh1.circle", "SphericalHarmonic1", 1, true, [](const Shared* S, Rng& r, Res& o, int pv) {
+    real a = S->P.a, gx, gy, gz; CircularEngine c = VAR(sh1v).Circle(r.uniform(-2, 2), a * r.uniform(0, 2), a * r.uniform(-2, 2), true);
     real lon = glon(r); o.d(c(lon)); o.d(c(lon, gx, gy, gz)); o.d(gx); o.d(gy); o.d(gz); });
-  add("sh2.value", "SphericalHarmonic2", 1, true, [](const Shared* S, Rng& r, Res& o, int) {
+  add("sh2.value", "SphericalHarmonic2", 1, true, [](const Shared* S, Rng& r, Res& o, int pv) {
     real X, Y, Z, gx, gy, gz, t1 = r.uniform(-2, 2), t2 = r.uniform(-2, 2); gxyz(r, S->P.a, X, Y, Z);
-    o.d(S->sh2(t1, t2, X, Y, Z)); o.d(S->sh2(t1, t2, X, Y, Z, gx, gy, gz)); o.d(gx); o.d(gy); o.d(gz); });
-  add("sh2.circle", "SphericalHarmonic2", 1, true, [](const Shared* S, Rng& r, Res& o, int) {
-    real a = S->P.a, gx, gy, gz; CircularEngine c = S->sh2.Circle(r.uniform(-2, 2), r.uniform(-2, 2), a * r.uniform(0, 2), a * r.uniform(-2, 2), true);
+    o.d(VAR(sh2v)(t1, t2, X, Y, Z)); o.d(VAR(sh2v)(t1, t2, X, Y, Z, gx, gy, gz)); o.d(gx); o.d(gy); o.d(gz); });
+  add("sh2.circle", "SphericalHarmonic2", 1, true, [](const Shared* S, Rng& r, Res& o, int pv) {
+    real a = S->P.a, gx, gy, gz; CircularEngine c = VAR(sh2v).Circle(r.uniform(-2, 2), r.uniform(-2, 2), a * r.uniform(0, 2), a * r.uniform(-2, 2), true);
     real lon = glon(r); o.d(c(lon)); o.d(c(lon, gx, gy, gz)); o.d(gx); o.d(gy); o.d(gz); });
-  add("circularengine.value", "CircularEngine", 2, true, [](const Shared* S, Rng& r, Res& o, int) {
+  add("circularengine.value", "CircularEngine", 2, true, [](const Shared* S, Rng& r, Res& o, int pv) {
     real lon = glon(r), gx, gy, gz, sl = std::sin(lon), cl = std::cos(lon);
     o.d(S->ce(lon)); o.d(S->ce(sl, cl)); o.d(S->ceg(lon)); o.d(S->ceg(lon, gx, gy, gz)); o.d(gx); o.d(gy); o.d(gz);
     o.d(S->ceg(sl, cl, gx, gy, gz)); o.d(gx); o.d(gy); o.d(gz); });
 
-  add("gravity.gravity", "GravityModel", 1, true, [](const Shared* S, Rng& r, Res& o, int) {
+  add("gravity.gravity", "GravityModel", 1, true, [](const Shared* S, Rng& r, Res& o, int pv) {
     real gx, gy, gz, lat = glat(r), lon = glon(r), h = gh(r);
-    o.d(S->gm.Gravity(lat, lon, h, gx, gy, gz)); o.d(gx); o.d(gy); o.d(gz);
-    o.d(S->gm.Disturbance(lat, lon, h, gx, gy, gz)); o.d(gx); o.d(gy); o.d(gz); });
-  add("gravity.geoid-anomaly", "GravityModel", 1, true, [](const Shared* S, Rng& r, Res& o, int) {
-    real a, b, c, lat = glat(r), lon = glon(r); o.d(S->gm.GeoidHeight(lat, lon));
-    S->gm.SphericalAnomaly(lat, lon, gh(r), a, b, c); o.d(a); o.d(b); o.d(c); });
-  add("gravity.potentials", "GravityModel", 1, true, [](const Shared* S, Rng& r, Res& o, int) {
-    real X, Y, Z, gx, gy, gz; gxyz(r, 6378137.0, X, Y, Z); const GravityModel& g = S->gm;
+    o.d(VAR(gmv).Gravity(lat, lon, h, gx, gy, gz)); o.d(gx); o.d(gy); o.d(gz);
+    o.d(VAR(gmv).Disturbance(lat, lon, h, gx, gy, gz)); o.d(gx); o.d(gy); o.d(gz); });
+  add("gravity.geoid-anomaly", "GravityModel", 1, true, [](const Shared* S, Rng& r, Res& o, int pv) {
+    real a, b, c, lat = glat(r), lon = glon(r); o.d(VAR(gmv).GeoidHeight(lat, lon));
+    VAR(gmv).SphericalAnomaly(lat, lon, gh(r), a, b, c); o.d(a); o.d(b); o.d(c); });
+  add("gravity.potentials", "GravityModel", 1, true, [](const Shared* S, Rng& r, Res& o, int pv) {
+    real X, Y, Z, gx, gy, gz; gxyz(r, 6378137.0, X, Y, Z); const GravityModel& g = VAR(gmv);
     o.d(g.W(X, Y, Z, gx, gy, gz)); o.d(gx); o.d(gy); o.d(gz); o.d(g.V(X, Y, Z, gx, gy, gz)); o.d(gx); o.d(gy); o.d(gz);
     o.d(g.T(X, Y, Z, gx, gy, gz)); o.d(gx); o.d(gy); o.d(gz); o.d(g.T(X, Y, Z)); o.d(g.U(X, Y, Z, gx, gy, gz)); o.d(gx); o.d(gy); o.d(gz);
     o.d(g.Phi(X, Y, gx, gy)); o.d(gx); o.d(gy); });
-  add("gravity.circle", "GravityModel", 1, true, [](const Shared* S, Rng& r, Res& o, int) {
+  add("gravity.circle", "GravityModel", 1, true, [](const Shared* S, Rng& r, Res& o, int pv) {
     static const unsigned caps[] = {GravityModel::ALL, GravityModel::GRAVITY, GravityModel::DISTURBANCE, GravityModel::GEOID_HEIGHT,
                                     GravityModel::SPHERICAL_ANOMALY, GravityModel::DISTURBING_POTENTIAL};
-    unsigned cp = r.pick(caps); GravityCircle c = S->gm.Circle(glat(r), gh(r), cp); real lon = glon(r), a, b, d;
+    unsigned cp = r.pick(caps); GravityCircle c = VAR(gmv).Circle(glat(r), gh(r), cp); real lon = glon(r), a, b, d;
     o.i(c.Capabilities());
     if (c.Capabilities(GravityModel::GRAVITY)) { o.d(c.Gravity(lon, a, b, d)); o.d(a); o.d(b); o.d(d); }
     if (c.Capabilities(GravityModel::DISTURBANCE)) { o.d(c.Disturbance(lon, a, b, d)); o.d(a); o.d(b); o.d(d); }
     if (c.Capabilities(GravityModel::GEOID_HEIGHT)) o.d(c.GeoidHeight(lon));
     if (c.Capabilities(GravityModel::SPHERICAL_ANOMALY)) { c.SphericalAnomaly(lon, a, b, d); o.d(a); o.d(b); o.d(d); }
     if (c.Capabilities(GravityModel::DISTURBING_POTENTIAL)) o.d(c.T(lon)); });
-  add("gravity.accessors", "GravityModel", 0.3, true, [](const Shared* S, Rng&, Res& o, int) {
-    const GravityModel& g = S->gm; o.d(g.EquatorialRadius()); o.d(g.MassConstant()); o.d(g.ReferenceMassConstant()); o.d(g.AngularVelocity());
+  add("gravity.accessors", "GravityModel", 0.3, true, [](const Shared* S, Rng&, Res& o, int pv) {
+    const GravityModel& g = VAR(gmv); o.d(g.EquatorialRadius()); o.d(g.MassConstant()); o.d(g.ReferenceMassConstant()); o.d(g.AngularVelocity());
     o.d(g.Flattening()); o.i(g.Degree()); o.i(g.Order()); o.str(g.Description()); o.str(g.DateTime()); o.str(g.GravityModelName());
     o.d(g.ReferenceEllipsoid().SurfacePotential()); });
-  add("gravitycircle.all", "GravityCircle", 2, true, [](const Shared* S, Rng& r, Res& o, int) {
-    const GravityCircle& c = S->gmc; real lon = glon(r), a, b, d;
+  add("gravitycircle.all", "GravityCircle", 2, true, [](const Shared* S, Rng& r, Res& o, int pv) {
+    const GravityCircle& c = VAR(gmcv); real lon = glon(r), a, b, d;
     o.d(c.Gravity(lon, a, b, d)); o.d(a); o.d(b); o.d(d); o.d(c.Disturbance(lon, a, b, d)); o.d(a); o.d(b); o.d(d);
     o.d(c.GeoidHeight(lon)); c.SphericalAnomaly(lon, a, b, d); o.d(a); o.d(b); o.d(d);
     o.d(c.W(lon, a, b, d)); o.d(a); o.d(b); o.d(d); o.d(c.V(lon, a, b, d)); o.d(a); o.d(b); o.d(d);
     o.d(c.T(lon, a, b, d)); o.d(a); o.d(b); o.d(d); o.d(c.T(lon));
     o.d(c.Latitude()); o.d(c.Height()); o.d(c.EquatorialRadius()); o.d(c.Flattening()); o.b(c.Init()); });
 
-  add("magnetic.field", "MagneticModel", 2, true, [](const Shared* S, Rng& r, Res& o, int) {
+  add("magnetic.field", "MagneticModel", 2, true, [](const Shared* S, Rng& r, Res& o, int pv) {
     real t = r.uniform(2010, 2040), lat = glat(r), lon = glon(r), h = gh(r), bx, by, bz, bxt, byt, bzt;
-    S->mm(t, lat, lon, h, bx, by, bz); o.d(bx); o.d(by); o.d(bz);
-    S->mm(t, lat, lon, h, bx, by, bz, bxt, byt, bzt); o.d(bx); o.d(by); o.d(bz); o.d(bxt); o.d(byt); o.d(bzt); });
-  add("magnetic.fieldgeocentric", "MagneticModel", 1, true, [](const Shared* S, Rng& r, Res& o, int) {
+    VAR(mmv)(t, lat, lon, h, bx, by, bz); o.d(bx); o.d(by); o.d(bz);
+    VAR(mmv)(t, lat, lon, h, bx, by, bz, bxt, byt, bzt); o.d(bx); o.d(by); o.d(bz); o.d(bxt); o.d(byt); o.d(bzt); });
+  add("magnetic.fieldgeocentric", "MagneticModel", 1, true, [](const Shared* S, Rng& r, Res& o, int pv) {
     real X, Y, Z, bx, by, bz, bxt, byt, bzt; gxyz(r, 6371200.0, X, Y, Z);
-    S->mm.FieldGeocentric(r.uniform(2010, 2040), X, Y, Z, bx, by, bz, bxt, byt, bzt); o.d(bx); o.d(by); o.d(bz); o.d(bxt); o.d(byt); o.d(bzt); });
-  add("magnetic.circle", "MagneticModel", 1, true, [](const Shared* S, Rng& r, Res& o, int) {
-    MagneticCircle c = S->mm.Circle(r.uniform(2010, 2040), glat(r), gh(r)); real lon = glon(r), bx, by, bz, bxt, byt, bzt;
+    VAR(mmv).FieldGeocentric(r.uniform(2010, 2040), X, Y, Z, bx, by, bz, bxt, byt, bzt); o.d(bx); o.d(by); o.d(bz); o.d(bxt); o.d(byt); o.d(bzt); });
+  add("magnetic.circle", "MagneticModel", 1, true, [](const Shared* S, Rng& r, Res& o, int pv) {
+    MagneticCircle c = VAR(mmv).Circle(r.uniform(2010, 2040), glat(r), gh(r)); real lon = glon(r), bx, by, bz, bxt, byt, bzt;
     c(lon, bx, by, bz, bxt, byt, bzt); o.d(bx); o.d(by); o.d(bz); o.d(bxt); o.d(byt); o.d(bzt); });
-  add("magnetic.accessors", "MagneticModel", 0.3, true, [](const Shared* S, Rng& r, Res& o, int) {
-    const MagneticModel& m = S->mm; o.d(m.MinHeight()); o.d(m.MaxHeight()); o.d(m.MinTime()); o.d(m.MaxTime()); o.d(m.EquatorialRadius());
+  add("magnetic.accessors", "MagneticModel", 0.3, true, [](const Shared* S, Rng& r, Res& o, int pv) {
+    const MagneticModel& m = VAR(mmv); o.d(m.MinHeight()); o.d(m.MaxHeight()); o.d(m.MinTime()); o.d(m.MaxTime()); o.d(m.EquatorialRadius());
     o.d(m.Flattening()); o.i(m.Degree()); o.i(m.Order()); o.str(m.Description()); o.str(m.DateTime()); o.str(m.MagneticModelName());
     real H, F, D, I, Ht, Ft, Dt, It, bx = r.uniform(-3e4, 3e4), by = r.uniform(-3e4, 3e4), bz = r.uniform(-3e4, 3e4);
     MagneticModel::FieldComponents(bx, by, bz, H, F, D, I); o.d(H); o.d(F); o.d(D); o.d(I);
     MagneticModel::FieldComponents(bx, by, bz, 1.0, -2.0, 3.0, H, F, D, I, Ht, Ft, Dt, It); o.d(Ht); o.d(Ft); o.d(Dt); o.d(It); });
-  add("magneticcircle.all", "MagneticCircle", 2, true, [](const Shared* S, Rng& r, Res& o, int) {
-    const MagneticCircle& c = S->mmc; real lon = glon(r), bx, by, bz, bxt, byt, bzt;
+  add("magneticcircle.all", "MagneticCircle", 2, true, [](const Shared* S, Rng& r, Res& o, int pv) {
+    const MagneticCircle& c = VAR(mmcv); real lon = glon(r), bx, by, bz, bxt, byt, bzt;
     c(lon, bx, by, bz); o.d(bx); o.d(by); o.d(bz); c(lon, bx, by, bz, bxt, byt, bzt); o.d(bx); o.d(by); o.d(bz); o.d(bxt); o.d(byt); o.d(bzt);
     c.FieldGeocentric(lon, bx, by, bz, bxt, byt, bzt); o.d(bx); o.d(by); o.d(bz); o.d(bxt); o.d(byt); o.d(bzt);
     o.d(c.Latitude()); o.d(c.Height()); o.d(c.Time()); o.d(c.EquatorialRadius()); o.d(c.Flattening()); o.b(c.Init()); });
 
-  add("geoid.bilinear", "Geoid(threadsafe)", 3, true, [](const Shared* S, Rng& r, Res& o, int) {
+  add_variant("sh.", "sh-nmx.", "SphericalHarmonic(nmx,mmx ctor)", 1);
+  add_variant("sh1.", "sh1-nmx.", "SphericalHarmonic1(nmx,mmx ctor)", 1);
+  add_variant("sh2.", "sh2-nmx.", "SphericalHarmonic2(nmx,mmx ctor)", 1);
+  add_variant("gravity.", "gravity-trunc.", "GravityModel(Nmax,Mmax)", 1);
+  add_variant("gravitycircle.", "gravitycircle-trunc.", "GravityCircle(of truncated model)", 1);
+  add_variant("magnetic.", "magnetic-trunc.", "MagneticModel(earth,Nmax,Mmax)", 1);
+  add_variant("magneticcircle.", "magneticcircle-trunc.", "MagneticCircle(of truncated model)", 1);
+
+  add("geoid.bilinear", "Geoid(threadsafe)", 3, true, [](const Shared* S, Rng& r, Res& o, int pv) {
     real lat = glat(r), lon = glon(r); o.d(S->geob(lat, lon)); o.d(S->geob.ConvertHeight(lat, lon, 10, Geoid::GEOIDTOELLIPSOID));
     o.d(S->geob(lat, lon)); });
-  add("geoid.cubic", "Geoid(threadsafe)", 3, true, [](const Shared* S, Rng& r, Res& o, int) {
+  add("geoid.cubic", "Geoid(threadsafe)", 3, true, [](const Shared* S, Rng& r, Res& o, int pv) {
     real lat = glat(r), lon = glon(r); o.d(S->geoc(lat, lon)); o.d(S->geoc.ConvertHeight(lat, lon, 10, Geoid::ELLIPSOIDTOGEOID));
     o.d(S->geoc(lat + 1e-9, lon)); });
-  add("geoid.accessors", "Geoid(threadsafe)", 0.5, true, [](const Shared* S, Rng& r, Res& o, int) {
+  add("geoid.accessors", "Geoid(threadsafe)", 0.5, true, [](const Shared* S, Rng& r, Res& o, int pv) {
     const Geoid& g = r.coin() ? S->geob : S->geoc; o.str(g.Description()); o.str(g.DateTime()); o.str(g.GeoidName()); o.str(g.Interpolation());
     o.d(g.MaxError()); o.d(g.RMSError()); o.d(g.Offset()); o.d(g.Scale()); o.b(g.ThreadSafe()); o.b(g.Cache()); o.d(g.CacheWest()); o.d(g.CacheEast());
     o.d(g.CacheNorth()); o.d(g.CacheSouth()); o.d(g.EquatorialRadius()); o.d(g.Flattening());
